@@ -364,3 +364,95 @@ pub fn check_debug_format() -> (usize, Option<String>) {
     fmt_all!(tried, "parse_ct_signed_certificate_timestamp", parse_ct_signed_certificate_timestamp);
     (tried, None)
 }
+
+// ---------------------------------------------------------------------------------------------
+// C04 / C10 / C11 / C05 bounded stand-in for LONG lists (the Kani leaves bound the list helpers at 7 bytes; the Verus
+// proofs of the helpers are unbounded, but a rewritten helper body - an explicit loop, an extra adapter in the chain -
+// falls outside the extraction and would only be "undecided"): ClientHello (TLS and DTLS) with n cipher suites and m
+// compression methods, and supported_groups / supported_versions extensions with g groups / v versions, for list
+// lengths around every power-of-two boundary up to the wire maximum; every element value distinct and checked in order.
+pub fn check_long_lists() -> (usize, Option<String>) {
+    let ns: [usize; 22] = [0, 1, 2, 3, 15, 16, 17, 127, 128, 129, 255, 256, 257, 511, 512, 513, 1023, 1024, 1025, 4097, 16385, 32767];
+    let ms: [usize; 6] = [0, 1, 2, 128, 254, 255];
+    let elem = |k: usize| -> u16 { ((k as u32 * 0x9e37 + 0x0a0a) & 0xffff) as u16 };       // spreads over both bytes, incl. 0x?a?a shapes
+    let mut tried = 0usize;
+    for (ni, &n) in ns.iter().enumerate() {
+        let m = ms[ni % ms.len()];
+        // body: version, random, empty session id, cipher list, compression list, no extensions
+        let mut body = vec![0x03u8, 0x03];
+        body.extend((0..32).map(|x| x as u8));
+        body.push(0);
+        let mut dtls_body = body.clone();
+        dtls_body.push(0);                                           // empty cookie
+        let mut lists = vec![];
+        lists.extend_from_slice(&((2 * n) as u16).to_be_bytes());
+        for k in 0..n { lists.extend_from_slice(&elem(k).to_be_bytes()); }
+        lists.push(m as u8);
+        lists.extend((0..m).map(|k| (k as u8).wrapping_mul(7).wrapping_add(1)));
+        body.extend_from_slice(&lists);
+        dtls_body.extend_from_slice(&lists);
+        let check = |what: &str, ciphers: &Vec<TlsCipherSuiteID>, comp: &Vec<TlsCompressionID>| -> Option<String> {
+            if ciphers.len() != n { return Some(format!("{} with {} cipher suites decoded to {} suites", what, n, ciphers.len())); }
+            for k in 0..n { if ciphers[k].0 != elem(k) { return Some(format!("{} with {} cipher suites: suite #{} is {:#06x}, the encoder wrote {:#06x}", what, n, k, ciphers[k].0, elem(k))); } }
+            if comp.len() != m { return Some(format!("{} with {} compression methods decoded to {}", what, m, comp.len())); }
+            for k in 0..m { if comp[k].0 != (k as u8).wrapping_mul(7).wrapping_add(1) { return Some(format!("{} with {} compression methods: method #{} is {:#04x}", what, m, k, comp[k].0)); } }
+            None
+        };
+        // TLS
+        let mut msg = vec![1u8, (body.len() >> 16) as u8, (body.len() >> 8) as u8, body.len() as u8];
+        msg.extend_from_slice(&body);
+        tried += 1;
+        match parse_tls_message_handshake(&msg) {
+            Ok((rem, TlsMessage::Handshake(TlsMessageHandshake::ClientHello(ch)))) => {
+                if !rem.is_empty() { return (tried, Some(format!("TLS ClientHello with {} cipher suites: {} bytes left over", n, rem.len()))); }
+                if let Some(d) = check("TLS ClientHello", &ch.ciphers, &ch.comp) { return (tried, Some(d)); }
+                let cs = ch.cipher_suites();
+                if cs.len() != n { return (tried, Some(format!("cipher_suites() of a ClientHello with {} suites has {} entries", n, cs.len()))); }
+            }
+            other => return (tried, Some(format!("TLS ClientHello with {} cipher suites / {} compression methods not decoded: {:?}", n, m, other.map(|(r, _)| r.len()))))
+        }
+        // DTLS
+        let l = dtls_body.len();
+        let mut dmsg = vec![1u8, (l >> 16) as u8, (l >> 8) as u8, l as u8, 0, 0, 0, 0, 0, (l >> 16) as u8, (l >> 8) as u8, l as u8];
+        dmsg.extend_from_slice(&dtls_body);
+        tried += 1;
+        match parse_dtls_message_handshake(&dmsg) {
+            Ok((rem, DTLSMessage::Handshake(h))) => match &h.body {
+                DTLSMessageHandshakeBody::ClientHello(ch) => {
+                    if !rem.is_empty() { return (tried, Some(format!("DTLS ClientHello with {} cipher suites: {} bytes left over", n, rem.len()))); }
+                    if let Some(d) = check("DTLS ClientHello", &ch.ciphers, &ch.comp) { return (tried, Some(d)); }
+                }
+                _ => return (tried, Some(format!("DTLS ClientHello with {} cipher suites decoded to another body", n))),
+            },
+            other => return (tried, Some(format!("DTLS ClientHello with {} cipher suites / {} compression methods not decoded: {:?}", n, m, other.map(|(r, _)| r.len()))))
+        }
+        // supported_groups with n groups (u16 list length <= 65534), supported_versions with v = min(n, 127) versions (u8 length)
+        let n = n.min(32766);                                        // extension data = 2n + 2 bytes must fit the u16 length
+        let v = n.min(127);
+        let mut ext = vec![0u8, 10];
+        ext.extend_from_slice(&((2 * n + 2) as u16).to_be_bytes());
+        ext.extend_from_slice(&((2 * n) as u16).to_be_bytes());
+        for k in 0..n { ext.extend_from_slice(&elem(k + 1).to_be_bytes()); }
+        ext.extend_from_slice(&[0, 43]);
+        ext.extend_from_slice(&((2 * v + 1) as u16).to_be_bytes());
+        ext.push((2 * v) as u8);
+        for k in 0..v { ext.extend_from_slice(&elem(k + 2).to_be_bytes()); }
+        tried += 1;
+        match parse_tls_client_hello_extensions(&ext) {
+            Ok((rem, l)) => {
+                if !rem.is_empty() || l.len() != 2 { return (tried, Some(format!("extension block with {} groups / {} versions: {} extensions, {} bytes left", n, v, l.len(), rem.len()))); }
+                match (&l[0], &l[1]) {
+                    (TlsExtension::EllipticCurves(g), TlsExtension::SupportedVersions(vs)) => {
+                        if g.len() != n { return (tried, Some(format!("supported_groups with {} groups decoded to {}", n, g.len()))); }
+                        for k in 0..n { if g[k].0 != elem(k + 1) { return (tried, Some(format!("supported_groups with {} groups: group #{} is {:#06x}, the encoder wrote {:#06x}", n, k, g[k].0, elem(k + 1)))); } }
+                        if vs.len() != v { return (tried, Some(format!("supported_versions with {} versions decoded to {}", v, vs.len()))); }
+                        for k in 0..v { if vs[k].0 != elem(k + 2) { return (tried, Some(format!("supported_versions with {} versions: version #{} is {:#06x}, the encoder wrote {:#06x}", v, k, vs[k].0, elem(k + 2)))); } }
+                    }
+                    _ => return (tried, Some(format!("extension block with {} groups / {} versions decoded to other variants: {:?}", n, v, l))),
+                }
+            }
+            Err(e) => return (tried, Some(format!("extension block with {} groups / {} versions rejected: {:?}", n, v, e.map(|x| x.code)))),
+        }
+    }
+    (tried, None)
+}
